@@ -24,6 +24,7 @@ EXPLANATION = (
     'finalize() destroys, deallocates and then releases; every graph task class ends execute() and cancel() that way; body / '
     'forward tasks are created only while the graph is active.  Exactly-once delivery over all topologies and "no body running '
     'when wait_for_all returns" as a timing property are NOT decided.')
+EXPLANATION += ' Added after the seeded-change rounds: ' + "D5 also: an inline (lightweight) body starts only after the group's cancellation state was consulted (violated on the pinned tree: known findings); D6: for every buffer node class and every non-exempt operation kind, each call chain to an item primitive consults the reservation state first; input_node hands its cached item out only when not reserved."
 ASSUMPTIONS = ['node kinds and policies instantiated in drivers/flow.cpp', 'aggregator serialises its handler (C13-D1)']
 ND = ['exactly-once delivery over all topologies', 'no body running when wait_for_all returns (timing)',
       'async_node gateway use from foreign threads beyond the reserve/release pairing']
